@@ -84,6 +84,7 @@ def history_probe(rep, cov, tier, rng):
             if kidx == 0:
                 m0 = bytes(rng.randrange(256) for _ in range(12))
                 noise(5, cp, [sk, m0]); noise(6, cp, []); noise(7, cp, [bytes(p.sig), m0, pk]); noise(8, cp, [sk, m0])
+                noise(10, cp, [sk, m0])     # right-length secret key with corrupted content (out-of-range codes)
                 if p.mldsa:
                     noise(9, cp, [sk, m0], None, 0); noise(9, cp, [sk, m0], b"h", 1)
             # API level, alternating descriptors on the same thread
@@ -152,6 +153,16 @@ def object_and_race_probes(rep, cov, tier, rng):
                 rep.violation("a key object reused after its bytes were overwritten in place behaves differently from a fresh object (%s): "
                               "[verify under first key, verify under second key, signature equals fresh object's] = %s" % (api, r),
                               {"cases": [{"fn": "obj_reuse", "copy": api, "args": [fmt_arg(x) for x in (skA, pkA, skB, pkB, m, sA, sB)]}]}, True)
+        # deterministic signing under load: every thread's signature of every message equals the single-threaded reference
+        for threads, iters in ([(16, 48)] if tier == "quick" else [(2, 400), (16, 200), (32, 100)]):
+            sd = bytes(rng.randrange(256) for _ in range(32))
+            r = crate([("sign_race", cp, [threads, iters, sd])])[0]
+            n += threads * iters
+            if r is None or r[1] != 0:
+                rep.violation("deterministic signing is schedule-dependent (%s): %s of %s signatures made on %d concurrent threads differ from the single-threaded "
+                              "signature of the same key and message (first: message %s as 4-byte LE, key seed %s)"
+                              % (cp, "?" if r is None else r[1], "?" if r is None else r[0], threads, "?" if r is None else r[2], sd.hex()),
+                              {"cases": [{"fn": "sign_race", "copy": cp, "args": [str(threads), str(iters), "x" + sd.hex()]}]}, True)
         plan = [(4, 24, 1 << 17)] if tier == "quick" else [(2, 150, 1 << 18), (8, 60, 1 << 18), (16, 40, 1 << 16)]
         for threads, iters, mlen in plan:
             r = crate([("verify_race", cp, [threads, iters, mlen])])[0]
